@@ -86,10 +86,12 @@ Proof.
   - (* VS *) destruct s; try (split; reflexivity). cbn [par_of scalar_par bvpar]. destruct (s2l s); split; reflexivity.
   - (* VList *)
     apply her_kids in Hx. cbn [kids] in Hx. cbn [wfb] in Hw.
-    destruct l as [|y l']; [split; reflexivity|].
-    cbn [par_of bvpar]. destruct (Q_list numbered e (y :: l') He Hx Hw) as [V' G'].
-    split; [rewrite vars_of_sepc by reflexivity; rewrite V'; apply concat_map_flat
-           | apply goodp_sepc; [reflexivity | exact G']].
+    destruct l as [|y l']; [destruct k; split; reflexivity|].
+    destruct (Q_list numbered e (y :: l') He Hx Hw) as [V' G'].
+    destruct k; try (split; [exact V | exact G]);
+    (cbn [par_of bvpar];
+     split; [rewrite vars_of_sepc by reflexivity; rewrite V'; apply concat_map_flat
+            | apply goodp_sepc; [reflexivity | exact G']]).
 Qed.
 
 Lemma args_good : forall e vars, tinfo_ok e = true -> Forall (Her Q) vars -> forallb wfb vars = true ->
